@@ -3,6 +3,7 @@ Correspondence: Lean `ParamVerif.TimeDyn.traceOps` vs the real param.Time / para
 numbergen generators / Parameterized._state_push/_state_pop; oracle: TimeDyn/Spec.lean."""
 import copy
 import itertools
+from fractions import Fraction
 
 ID = 'C19'
 PROPS_FILE = 'ParamVerif/Props/C19.lean'
@@ -29,8 +30,8 @@ TRUSTED = [
     'correspondence is differential testing: model = code only on the histories executed',
 ]
 ASSUMPTIONS = [
-    'one global Time object (param.Dynamic.time_fn) with time_type=int (Fraction/float times are not generated; '
-    'equal-but-not-identical times are exercised with non-interned ints); generators use it',
+    'one global Time object (param.Dynamic.time_fn); time_type is int or fractions.Fraction and may be switched '
+    '(float times and converting time_type callables are not generated); generators use that Time object',
     'a generator\'s "name" is the name given at construction (the hash name): copies made on instantiation '
     'get a new .name but keep the hash name',
     'seeds are explicit integers; param.random_seed is not changed',
@@ -46,7 +47,7 @@ RULE = ('directed prefix (time -1 as first read = regression of the repaired cac
         'instances) over 1-4 parameters (Dynamic and Number), time-dependent generators with 3 names x 3 seeds x 3 '
         'distributions, TimeSampledFn over them (periods 1-6, every offset), counters and seeded streams. non-trivial = at least one oracle conclusion checked and one '
         'value read from a time-dependent generator; distinct = distinct canonical case')
-COVERAGE_TARGETS = ['read:td', 'read:st', 'read:sm', 'force:sm', 'inspect:sm', 'read:const', 'read:raised:StopIteration', 'read:raised:KeyError',
+COVERAGE_TARGETS = ['setTimeType', 'fractional-time', 'time_type:Fraction', 'read:td', 'read:st', 'read:sm', 'force:sm', 'inspect:sm', 'read:const', 'read:raised:StopIteration', 'read:raised:KeyError',
                     'force:raised:StopIteration',
                     'inspect:td', 'inspect:st', 'force:td', 'force:st', 'enter', 'exit', 'exit:raised:KeyError',
                     'exit:raised:IndexError', 'push', 'pop', 'pop:raised:IndexError', 'raise:raised:StopIteration',
@@ -101,9 +102,20 @@ def _exc_name(e):
     return 'MALFORMED' if isinstance(e, _Malformed) else type(e).__name__
 
 
+def _q(t):
+    """exact ratio [numerator, denominator] of an int / Fraction time"""
+    f = Fraction(t)
+    return [f.numerator, f.denominator]
+
+
+def _time(j):
+    """time of a case: an int, or [numerator, denominator]"""
+    return Fraction(j[0], j[1]) if isinstance(j, list) else j
+
+
 def _enc_time(t):
     """the 'no value generated yet' marker is not a number: reported as null"""
-    return int(t) if isinstance(t, int) and not isinstance(t, bool) else None
+    return _q(t) if isinstance(t, (int, Fraction)) and not isinstance(t, bool) else None
 
 
 def _enc(v):
@@ -154,7 +166,8 @@ class _Run:
         if ts != int(ts):
             raise RuntimeError('non-integral timestep')
         until = None if isinstance(tf.until, self.param.Infinity) else int(tf.until)
-        return [int(tf()), int(ts), until, len(tf._pushed_state), getattr(tf, 'in_context', None)]
+        return [_q(tf()), int(ts), until, len(tf._pushed_state), getattr(tf, 'in_context', None),
+                'int' if tf.time_type is int else 'frac']
 
     def caches(self):
         return [[_enc(g._Dynamic_last), _enc_time(g._Dynamic_time), len(g._saved_Dynamic_last), len(g._saved_Dynamic_time)]
@@ -254,9 +267,12 @@ class _Run:
                 val = self.make(op['src'])
                 call = lambda: setattr(obj, f'p{op["p"]}', val)
             elif o == 'setTime':
-                call = lambda: tf(op['t'])
+                call = lambda: tf(_time(op['t']))
+            elif o == 'setTimeType':
+                call = lambda: tf(_time(op['t']), time_type={'int': int, 'frac': Fraction}[op['tt']])
             elif o == 'advance':
-                call = (lambda: tf.__iadd__(op['d'])) if op['d'] >= 0 else (lambda: tf.__isub__(-op['d']))
+                d = _time(op['d'])
+                call = (lambda: tf.__iadd__(d)) if d >= 0 else (lambda: tf.__isub__(-d))
             elif o == 'setStep':
                 call = lambda: setattr(tf, 'timestep', op['s'])
             elif o == 'setUntil':
@@ -287,7 +303,7 @@ class _Run:
         saved_td = param.Dynamic.time_dependent
         try:
             param.Dynamic.time_dependent = case['dynTD']
-            tf(0)
+            tf(0, time_type=int)
             tf._pushed_state = []
             tf.timestep = 1.0
             tf.until = param.Time.forever
@@ -310,7 +326,7 @@ class _Run:
         finally:
             param.Dynamic.time_dependent = saved_td
             tf._pushed_state = []
-            tf(0)
+            tf(0, time_type=int)
             tf.timestep = 1.0
             tf.until = param.Time.forever
 
@@ -396,6 +412,14 @@ def T(t):
     return {'op': 'setTime', 't': t}
 
 
+def TT(t, tt):
+    return {'op': 'setTimeType', 't': t, 'tt': tt}
+
+
+def ADV(d):
+    return {'op': 'advance', 'd': d}
+
+
 def CTX(*body):
     return {'op': 'ctx', 'body': list(body)}
 
@@ -452,6 +476,16 @@ def _directed():
     yield _mk(smp, [NEW, T(7), {'op': 'setStep', 's': 2}, {'op': 'setUntil', 'u': 40}, R(0, 0), R(0, 3),
                     CTX(T(9), R(0, 0), CTX({'op': 'advance', 'd': 4}, F(0, 3), R(0, 1)), R(0, 0)), R(0, 0),
                     {'op': 'push', 'i': 0}, T(11), R(0, 0), R(0, 3), {'op': 'pop', 'i': 0}, I(0, 0), R(0, 0)])
+    # rational time (time_type=Fraction), the time type switched inside a context (to the lossy `int`): the
+    # context puts the saved time back exactly, whatever the type in force; conversions by time_type elsewhere
+    fr = [_p('number', _td()), _p('dynamic', _st(0)), _p('dynamic', {'fresh': ['sm', 'g', 3, 3, 1]})]
+    yield _mk(fr, [NEW, TT([5, 2], 'frac'), R(0, 0), R(0, 1), R(0, 2), CTX(TT(7, 'int'), ADV(3), R(0, 0), R(0, 1)),
+                   R(0, 0), R(0, 1), R(0, 2), I(0, 0), ADV([1, 2]), R(0, 0), T([7, 2]), R(0, 0), T([5, 2]), R(0, 0)])
+    yield _mk(fr, [NEW, TT([5, 2], 'frac'), R(0, 0), T([5, 2]), R(0, 0), R(0, 1), T([10, 4]), R(0, 1), ADV([1, 3]),
+                   ADV([-1, 3]), R(0, 1), R(0, 0), T([-7, 2]), R(0, 0), R(0, 2), T(2), R(0, 0), R(-1, 0),
+                   CTX(ADV([9, 4]), R(0, 2), CTX(TT([-7, 2], 'int'), R(0, 0), RAISE('StopIteration'))), R(0, 0)])
+    yield _mk(fr, [NEW, T([5, 2]), R(0, 0), ADV([-5, 2]), R(0, 0), TT([-5, 2], 'int'), R(0, 0), TT([-5, 2], 'frac'),
+                   R(0, 0), {'op': 'push', 'i': 0}, CTX(TT(4, 'int'), R(0, 0), RAISE('KeyError')), R(0, 0)])
     # forward / backward / repeated, two instances, class-level
     yield _mk(two, [NEW, NEW] + [x for t in (0, 1, 2, 1, 0, 5, 0, -2, 3, -2, 2, 2 ** 32 + 1, 1)
                                  for x in (T(t), R(0, 0), R(1, 0), R(-1, 0), R(0, 1), R(0, 1))])
@@ -550,6 +584,8 @@ def _random_case(rng):
             t = rng.randint(-6, 12)
         if t == -1 and not sentinel_ok:
             t = -2
+        if rng.random() < 0.12:
+            return [rng.randint(-9, 15), rng.choice([2, 3, 4])]      # a fraction (truncated when time_type is int)
         return t
 
     def tgt():
@@ -577,11 +613,13 @@ def _random_case(rng):
                     d = rng.choice([1, 7, 500, -300])
                     ops.extend([{'op': 'advance', 'd': d}, {'op': 'advance', 'd': -d}])
                 ops.append(R(tg_, p_))
+            elif r < 0.075:
+                ops.append(TT(time(), rng.choice(['int', 'frac', 'frac'])))
             elif r < 0.2:
                 ops.append(T(time()))
             elif r < 0.27:
                 d = rng.randint(-5, 5)
-                ops.append({'op': 'advance', 'd': d if sentinel_ok else 2 * d})   # parity keeps -1 rare, not impossible
+                ops.append(ADV(d if rng.random() < 0.8 else [d, rng.choice([2, 3])]))
             elif r < 0.3 and depth < 3:
                 # a read that may fail, caught by a context (contexts swallow StopIteration), then the same read again
                 rd = R(tgt(), rng.randrange(nparams))
@@ -629,6 +667,8 @@ def _random_case(rng):
         return ops
 
     ops = block(0)
+    if rng.random() < 0.2:
+        ops.insert(0, TT(time(), 'frac'))        # the whole history on rational time
     return _fix(_mk(params, ops, dynTD))
 
 
@@ -696,7 +736,11 @@ def tags(case, impl):
         for e in impl['events']:
             k = e['tag'].split(':')[0]
             t.append(k + (':raised:' + e['res']['raised'] if 'raised' in e['res'] else ''))
-            times.add(e['clock'][0])
+            times.add(e['clock'][0][0])
+            if e['clock'][0][1] != 1:
+                t.append('fractional-time')
+            if e['clock'][5] == 'frac':
+                t.append('time_type:Fraction')
             if e['clock'][3] >= 2:
                 t.append('nested-context')
         if any(x < 0 for x in times):
